@@ -346,6 +346,18 @@ func H_Perp_ClosePositions_TwoOfOnePool_Ledger() {
 		}
 	}
 	env.Perp.SetPool(ctx, pp)
+	syncAccounted(w)
+	srv := perpkeeper.NewMsgServerImpl(*env.Perp)
+	_, err := srv.ClosePositions(ctx, &perptypes.MsgClosePositions{Creator: bot.String(), Liquidate: []perptypes.PositionRequest{{Address: owner.String(), Id: 1}, {Address: owner.String(), Id: 2}}})
+	vrf.Assert(err == nil, "C10: the batch handler itself does not fail")
+	vrf.Cover("done")
+	ledger(w, "close-positions(two)")
+}
+
+// syncAccounted: the accounted pool as the hooks keep it for the owner's positions (there are no others): amm reserve
+// (1e30) + liabilities - custody
+func syncAccounted(w *world) {
+	env, ctx := w.env, w.env.Ctx
 	acc, _ := env.Acc.GetAccountedPool(ctx, 1)
 	for i := range acc.TotalTokens {
 		d := acc.TotalTokens[i].Denom
@@ -363,17 +375,19 @@ func H_Perp_ClosePositions_TwoOfOnePool_Ledger() {
 		acc.NonAmmPoolTokens[i].Amount = delta
 	}
 	env.Acc.SetAccountedPool(ctx, acc)
-	srv := perpkeeper.NewMsgServerImpl(*env.Perp)
-	_, err := srv.ClosePositions(ctx, &perptypes.MsgClosePositions{Creator: bot.String(), Liquidate: []perptypes.PositionRequest{{Address: owner.String(), Id: 1}, {Address: owner.String(), Id: 2}}})
-	vrf.Assert(err == nil, "C10: the batch handler itself does not fail")
-	vrf.Cover("done")
+}
+
+// ledger: amm bank == book, perpetual pool totals == sums over the owner's remaining positions (there are no others),
+// custody backed, accounted pool == reserve + liabilities - custody, counter == number of positions
+func ledger(w *world, label string) {
+	env, ctx := w.env, w.env.Ctx
 	ammPool, _ := env.Amm.GetPool(ctx, 1)
 	pp2, _ := env.Perp.GetPool(ctx, 1)
 	acc2, _ := env.Acc.GetAccountedPool(ctx, 1)
 	mtps := env.Perp.GetAllMTPsForAddress(ctx, owner)
 	for i, a := range ammPool.PoolAssets {
 		d := a.Token.Denom
-		vrf.Assert(env.W.BalOf(poolAddr, d).Equal(a.Token.Amount), "C01 close-positions(two): amm bank == book ("+d+")")
+		vrf.Assert(env.W.BalOf(poolAddr, d).Equal(a.Token.Amount), "C01 "+label+": amm bank == book ("+d+")")
 		l, c, k := sdkmath.ZeroInt(), sdkmath.ZeroInt(), sdkmath.ZeroInt()
 		for _, x := range mtps {
 			if x.LiabilitiesAsset == d {
@@ -386,11 +400,29 @@ func H_Perp_ClosePositions_TwoOfOnePool_Ledger() {
 				k = k.Add(x.Collateral)
 			}
 		}
-		vrf.Assert(pp2.PoolAssetsLong[i].Liabilities.Equal(l), "C09 close-positions(two): long liabilities == sum over positions ("+d+")")
-		vrf.Assert(pp2.PoolAssetsLong[i].Custody.Equal(c), "C09 close-positions(two): long custody == sum over positions ("+d+")")
-		vrf.Assert(pp2.PoolAssetsLong[i].Collateral.Equal(k), "C09 close-positions(two): long collateral == sum over positions ("+d+")")
-		vrf.Assert(a.Token.Amount.GTE(c), "C09 close-positions(two): the liquidity pool holds at least the total custody ("+d+")")
-		vrf.Assert(acc2.TotalTokens[i].Amount.Equal(a.Token.Amount.Add(l).Sub(c)), "C11 close-positions(two): accounted balance == reserve + liabilities - custody ("+d+")")
+		vrf.Assert(pp2.PoolAssetsLong[i].Liabilities.Equal(l), "C09 "+label+": long liabilities == sum over positions ("+d+")")
+		vrf.Assert(pp2.PoolAssetsLong[i].Custody.Equal(c), "C09 "+label+": long custody == sum over positions ("+d+")")
+		vrf.Assert(pp2.PoolAssetsLong[i].Collateral.Equal(k), "C09 "+label+": long collateral == sum over positions ("+d+")")
+		vrf.Assert(a.Token.Amount.GTE(c), "C09 "+label+": the liquidity pool holds at least the total custody ("+d+")")
+		vrf.Assert(acc2.TotalTokens[i].Amount.Equal(a.Token.Amount.Add(l).Sub(c)), "C11 "+label+": accounted balance == reserve + liabilities - custody ("+d+")")
 	}
-	vrf.Assert(env.Perp.GetOpenMTPCount(ctx) == uint64(len(mtps)), "C09 close-positions(two): open-position counter == number of stored positions")
+	vrf.Assert(env.Perp.GetOpenMTPCount(ctx) == uint64(len(mtps)), "C09 "+label+": open-position counter == number of stored positions")
+}
+
+// the same position named in all three lists of one MsgClosePositions (liquidate, stop-loss, take-profit): whatever an
+// earlier entry did to it (settlement, close), the later entries work on the position as stored then
+//
+//vrf:cover done
+//vrf:bound 1 LONG position (uusdc collateral) named three times in one message by a third party; custody / liabilities <= 1e18, symbolic integer swap rate, oracle price, stop-loss and take-profit prices
+//vrf:max-paths 6000
+func H_Perp_ClosePositions_SamePositionThrice_Ledger() {
+	w := setup(perptypes.Position_LONG)
+	env, ctx := w.env, w.env.Ctx
+	srv := perpkeeper.NewMsgServerImpl(*env.Perp)
+	syncAccounted(w)
+	req := perptypes.PositionRequest{Address: owner.String(), Id: 1}
+	_, err := srv.ClosePositions(ctx, &perptypes.MsgClosePositions{Creator: bot.String(), Liquidate: []perptypes.PositionRequest{req, req}, StopLoss: []perptypes.PositionRequest{req}, TakeProfit: []perptypes.PositionRequest{req}})
+	vrf.Assert(err == nil, "C10: the batch handler itself does not fail")
+	vrf.Cover("done")
+	ledger(w, "close-positions(same position repeated)")
 }
